@@ -1138,6 +1138,11 @@ def panel_transformer_subjects(tier, seed):
     add("PlateauFinder(value=1.0)", lambda **o: PlateauFinder(value=1.0))
     add("RandomIntervalFeatureExtractor(n_intervals=3, features=[mean, std])",
         lambda **o: RandomIntervalFeatureExtractor(n_intervals=3, features=[np.mean, np.std], **o), random=True)
+    from sktime.utils.slope_and_trend import _slope
+    # the time series forest's own summary features (mean, std, slope) on windows that are VIEWS of a 3-d array input
+    add("RandomIntervalFeatureExtractor(n_intervals=3, features=[mean, std, _slope])",
+        lambda **o: RandomIntervalFeatureExtractor(n_intervals=3, features=[np.mean, np.std, _slope], **o), random=True,
+        conts=("numpy3d",))
     add("ShapeletTransform(min 3, max 5, 3 per class)",
         lambda **o: ShapeletTransform(min_shapelet_length=3, max_shapelet_length=5,
                                       max_shapelets_to_store_per_class=3, **o), random=True, first_shape_only=True)
